@@ -13,7 +13,7 @@ try:
 except Exception:
     pass
 seen = {}
-for line in open(os.path.join(ROOT, '.work/thorough/SUMMARY.txt')):
+for line in open(os.path.join(ROOT, '.work/thorough2/SUMMARY.txt')):
     m = re.match(r'(C\d+) rc=(\d+)', line)
     if m:
         seen[m.group(1)] = int(m.group(2))
@@ -23,7 +23,7 @@ for pid, rc in seen.items():
     spec = engine.load_spec(pid)
     names = [i['name'] for i in spec.INSTANCES if 'thorough' in i.get('tiers', ['quick', 'thorough'])]
     bad = set()
-    for l in open(os.path.join(ROOT, '.work/thorough/%s.log' % pid)):
+    for l in open(os.path.join(ROOT, '.work/thorough2/%s.log' % pid)):
         mm = re.match(r'INCONCLUSIVE[^:]*: (\S+?):', l)
         if mm:
             bad.add(mm.group(1))
